@@ -4,6 +4,7 @@ CONSTANTS
   DescUnits = {"Bytes", "TerabitsPerSecond"}
   HistVals = {"v100"}
   HistCounts = {1}
+  GaugeOps = {"set"}
 SPECIFICATION Spec
 INVARIANT Emit
 INVARIANT UnitInv
